@@ -189,18 +189,52 @@ PROPS = {
 }
 
 
+_loop_cache = {}
+
+
+def _model_says_loops(grammar, cfg):
+    """Runs MCI_LR (LRRuntime explored by TLC) over the table the real compiler builds
+    for exactly this grammar and these settings; True iff the specification itself has a
+    run that never shifts."""
+    key = json.dumps([grammar, cfg], sort_keys=True)
+    if key in _loop_cache:
+        return _loop_cache[key]
+    work = run.Work()
+    try:
+        case = {"id": "loopcheck", "grammar": grammar, "cfg": cfg, "meta": {"nodis": False, "plain": False}}
+        pre = run.run_vdrive(work, "loopcheck", [case], shards=1)[0]
+        r = run.run_tlc(work, "MCI_LR", "MCI_LR.cfg", {"DUMPS": pre + ".dumps.ndjson", "MAXLEN": "3", "REPLAY": "0"},
+                        workers=4, timeout=600)
+        res = any(x["what"] == "hang" for x in r["verdicts"])
+    finally:
+        work.cleanup()
+    _loop_cache[key] = res
+    return res
+
+
 def _lr_loop_by_disambiguation(v, ctx):
     """Signature of C15-F2: disambiguation took effect for this table (the raw dump of the
     same grammar/table type has conflict cells) AND the specification itself says the table
     loops: Table.EpsLoops is non-empty (TLC on the dumped table) or MCI_LR, exploring
-    LRRuntime over this very table, reports a run that never shifts."""
-    tid = v["id"].split("+lay:")[0] + ("|" + v["id"].rsplit("|", 1)[1] if "+lay:" in v["id"] else "")
-    nodis = ctx.res.get("tables", {}).get("nodis", {}).get(tid if "+lay:" in v["id"] else v["id"])
+    LRRuntime over the table built for exactly this grammar and these settings, reports a
+    run that never shifts."""
+    import re
+    vid = v["id"]
+    base = re.sub(r"(/ps1|/pse0|\+reuse|\+lay:\w+)", "", vid)
+    nodis = ctx.res.get("tables", {}).get("nodis", {}).get(base)
     if nodis is not False:
         return False
-    eps = any(w["id"] == v["id"] and w.get("epsloop", 0) > 0 for w in ctx.res.get("lr", {}).get("wf", []))
-    mci = any(r["id"] == v["id"] and r["what"] == "hang" for r in ctx.res.get("mci_lr", {}).get("verdicts", []))
-    return eps or mci
+    if any(w["id"] == vid and w.get("epsloop", 0) > 0 for w in ctx.res.get("lr", {}).get("wf", [])):
+        return True
+    if base == vid and any(r["id"] == vid and r["what"] == "hang" for r in ctx.res.get("mci_lr", {}).get("verdicts", [])):
+        return True
+    cfg = {"algo": "lr", "tt": vid.rsplit("|", 1)[1]}
+    if "/ps1" in vid:
+        cfg["ps"] = True
+    if "/pse0" in vid:
+        cfg["pse"] = False
+    grammar = ctx.grammar("lr", vid) or ctx.grammar("lr", base)
+    return bool(grammar) and _model_says_loops(grammar, cfg)
 
 
 def _rn_indirect_nullable_tail(v, ctx):
